@@ -36,10 +36,10 @@ from pgverif.monitors import genoref as G
 NS = importlib.import_module('pyglove.ext.evolution.nsga2')
 
 TIERS = {
-    'quick': dict(shards=8, cases=25, apps=14, max_pop=8, algos=0.2,
-                  timeout_s=600),
-    'thorough': dict(shards=16, cases=220, apps=24, max_pop=12, algos=0.3,
-                     timeout_s=3000, case_timeout_s=300),
+    'quick': dict(shards=8, cases=20, apps=14, kpoint_extra=3, max_pop=8,
+                  algos=0.2, timeout_s=600),
+    'thorough': dict(shards=16, cases=230, apps=20, kpoint_extra=3, max_pop=12,
+                     algos=0.3, timeout_s=3000, case_timeout_s=300),
 }
 RULE = ('case = one random search space (gen/spaces.random_space with floats, '
         'custom points, names, literals, conditional multi-choices, plus '
@@ -250,7 +250,7 @@ def show(node):
   if k == 'leaf':
     ps = ','.join(f'{a}={node[a]!r}' for a in sorted(node)
                   if a not in ('k', 'op'))
-    return f"{node['op'].split('.', 1)[-1] if node['op'] in ('fn',) else node['op']}({ps})"
+    return f"{node['op']}({ps})"
   if k == 'bin':
     return f"({show(node['a'])} {node['o']} {show(node['b'])})"
   if k == 'un':
@@ -308,7 +308,7 @@ def build_leaf(node, recorder=None):
       kw['where'] = table[node['where']]
     return cls(seed=node['seed'], **kw)
   if op in POINTWISE or op in PERMUTATION:
-    w = build_where(node['where'], node.get('seed'))
+    w = build_where(node['where'], node.get('wseed'))
     if w is not None:
       kw['where'] = w
     if 'seed' in node:
@@ -464,6 +464,7 @@ def flatten(xs, out=None):
   return out
 
 
+MAX_POINTS = 16          # library cost per DNA is ~2 ms per node
 FLOAT_EDGES = [(0.0, 0.1), (0.1, 0.3), (-0.7, 0.7), (0.1, 0.1), (0.3, 0.9)]
 
 
@@ -491,7 +492,7 @@ def gen_space(rng):
     extra.append(S.floatv(lo, hi, loc='fedge'))
   for e in extra:
     elems.insert(rng.randint(0, len(elems)), e)
-  while S.count_points(S.space(*elems)) > 40 and len(elems) > 1:
+  while S.count_points(S.space(*elems)) > MAX_POINTS and len(elems) > 1:
     elems.pop(rng.randrange(len(elems)))
   return S.space(*elems)
 
@@ -585,16 +586,16 @@ class Env:
 
 def snapshot(d):
   """Everything observable about an input DNA that an operator may not touch."""
-  j = d.to_json(compact=False)
-  if isinstance(j, dict) and '_cloneable_metadata_keys' in j:
-    j['_cloneable_metadata_keys'] = sorted(j['_cloneable_metadata_keys'])
-  compact = pg.to_json(d)
+  nodes = dna_nodes(d)
+  compact = pg.to_json(d)                  # decisions, root metadata, cloneable keys
   if isinstance(compact, dict) and '_cloneable_metadata_keys' in compact:
     compact['_cloneable_metadata_keys'] = sorted(compact['_cloneable_metadata_keys'])
   return {
-      'decisions': repr(d.to_numbers()),
-      'binding': [id(n.spec) for n in dna_nodes(d)],
-      'metadata': json.dumps([j, compact], sort_keys=True, default=repr),
+      'decisions': repr([n.value for n in nodes]) + repr([len(n.children) for n in nodes]),
+      'binding': [id(n.spec) for n in nodes],
+      'metadata': (json.dumps(compact, sort_keys=True, default=repr)
+                   + repr([n.metadata.to_json() if len(n.metadata) else 0
+                           for n in nodes[1:]])),
       'userdata': [(k, id(v), repr(v)) for k, v in sorted(d.userdata.items())],
   }
 
@@ -828,7 +829,7 @@ class Run:
     in_ids = [id(x) for x in flat_in]
     shape_in = repr([len(x) if isinstance(x, list) else 1 for x in inputs])
     snaps, seen = [], set()
-    for x in flat_in:
+    for x in (flat_in if leaf else ()):     # composites only route objects
       if isinstance(x, pg.DNA) and id(x) not in seen:
         seen.add(id(x))
         snaps.append((x, snapshot(x)))
@@ -844,7 +845,11 @@ class Run:
         self.inapplicable = 'Slice: index out of range'
         raise Inapplicable(self.inapplicable) from e
       if lib_innermost(e):
-        self.fail('unexpected-exception', name,
+        mech = name
+        if (leaf and node['op'] in ('recombinators.Uniform', 'recombinators.Sample')
+            and node['where'] not in (None, 'ALL')):
+          mech += ':partial-where'   # the filter may drop decision points
+        self.fail('unexpected-exception', mech,
                   f'{show(node)} raised on inputs '
                   f'{[repr(x) for x in flat_in][:6]}:\n'
                   + ''.join(traceback.format_exception(e))[-2500:])
@@ -1029,20 +1034,55 @@ def signature(env, pop_ids, outputs):
     if id(o) in pop_ids:
       sig.append(('input', pop_ids[id(o)]))
     elif isinstance(o, pg.DNA):
-      sig.append(('new', repr(o.to_numbers()),
-                  repr(plain_view(o.to_dict())) if o.spec is not None else None))
+      sig.append(('new', repr(o.to_numbers())))
     else:
       sig.append(('other', repr(o)))
   return sig
 
 
-def tainted(ctx, name):
-  """True if a listed known finding concerns the operator `name`."""
+def nondet_mechanism(leaf):
+  mech = node_name(leaf)
+  if leaf['op'] in PERMUTATION and leaf['where'] is None:
+    mech += ':default-where'
+  return mech
+
+
+def has_generator(node):
+  return any(l['op'] in GENERATORS for l in leaves(node))
+
+
+def id_set_over_fresh_outputs(node):
+  """`x - y` / `x & y` where both operands create DNAs: the composite keeps
+  only id()s of y's outputs, which are garbage by the time x's outputs are
+  compared with them. Returns the mechanism name of the first such node."""
+  if node['k'] == 'bin' and node['o'] in ('-', '&') and has_generator(
+      node['a']) and has_generator(node['b']):
+    return BIN_NAMES[node['o']] + ':fresh-operands'
+  for kid in kid_nodes(node):
+    r = id_set_over_fresh_outputs(kid)
+    if r:
+      return r
+  return None
+
+
+def tainted(ctx, leaf):
+  """True if a listed known finding makes the bare (un-healed) run of an
+  expression containing `leaf` differ from the probed run."""
+  name = node_name(leaf)
   for key in ctx.known:
-    mech = key.split(':', 1)[1] if ':' in key else ''
-    if mech == name or mech.startswith(name + ':'):
+    clause, _, mech = key.partition(':')
+    if clause == 'unexpected-exception':
+      continue                    # aborts the probed run; no bare run follows
+    if clause == 'nondeterministic':
+      if mech == nondet_mechanism(leaf):
+        return True
+    elif mech == name or mech.startswith(name + ':'):
       return True
   return False
+
+
+def unlisted_count(ctx):
+  return sum(r['count'] for k, r in ctx.violations.items() if k not in ctx.known)
 
 
 def apply_expression(ctx, env, rng, expr, idxs, step, case):
@@ -1055,6 +1095,7 @@ def apply_expression(ctx, env, rng, expr, idxs, step, case):
   c['applications'] += 1
   c['root:' + root] += 1
   # -- probed run
+  unlisted_before = unlisted_count(ctx)
   run = Run(env, case)
   op1 = run.build(expr)
   seed_a, seed_b = rng.randrange(1 << 30), rng.randrange(1 << 30)
@@ -1078,11 +1119,12 @@ def apply_expression(ctx, env, rng, expr, idxs, step, case):
   # -- the population is what it was
   verify_population(ctx, env, root if single else 'expression', case)
   summary = {'status': status, 'new': run.new_dnas, 'selected': run.selected}
-  if status != 'ok' or run.violated or env.dirty:
+  if status != 'ok' or env.dirty or unlisted_count(ctx) > unlisted_before:
     return summary
-  # -- bare run: same description, fresh objects, other global RNG state
-  names = {node_name(l) for l in leaves(expr)}
-  if not single and any(tainted(ctx, n) for n in names):
+  # -- bare run: same description, fresh objects, other global RNG state.
+  # A listed finding that the probes healed (e.g. a re-bound output) makes a
+  # composite's bare run diverge; a single operator is still compared.
+  if not single and (run.violated or any(tainted(ctx, l) for l in leaves(expr))):
     c['bare_runs_skipped_known'] += 1
     return summary
   op2 = build_bare(expr)
@@ -1103,12 +1145,8 @@ def apply_expression(ctx, env, rng, expr, idxs, step, case):
   c['determinism_checks'] += 1
   s1, s2 = signature(env, pop_ids, out1), signature(env, pop_ids, out2)
   if s1 != s2:
-    if single:
-      mech = root
-      if expr['op'] in PERMUTATION and expr['where'] is None:
-        mech += ':default-where'
-    else:
-      mech = 'expression'
+    mech = (nondet_mechanism(expr) if single
+            else (id_set_over_fresh_outputs(expr) or 'expression'))
     ctx.violation('nondeterministic', mech,
                   f'{show(expr)} at step {step}: two fresh instances built '
                   f'from the same description returned {s1!r:.700} and '
@@ -1122,7 +1160,7 @@ def apply_expression(ctx, env, rng, expr, idxs, step, case):
 def verify_population(ctx, env, name, case):
   """Case-level before/after snapshot of every population member."""
   ctx.counters['population_snapshot_checks'] += 1
-  for i, d in enumerate(env.pop):
+  for i, d in enumerate(env.pop if not env.dirty else ()):   # dirty: reported by a probe
     part = snapshot_diff(env.snaps[i], snapshot(d))
     if part:
       ctx.violation('input-modified', f'{name}:{part}',
@@ -1145,10 +1183,13 @@ def gen_n(rng, npop):
 
 
 def gen_rec_where(rng, op):
+  """{'where': name, 'wseed': seed of a where.Any filter}."""
   if op in PERMUTATION:
-    return rng.choice([None, None, 'ALL', 'any1', 'any2', 'first', 'nothing'])
-  return rng.choice([None, None, 'ALL', 'any1', 'any2', 'anystep', 'first',
-                     'floats', 'choices', 'nothing', 'everyother'])
+    w = rng.choice([None, None, 'ALL', 'any1', 'any2', 'first', 'nothing'])
+  else:
+    w = rng.choice([None, None, 'ALL', 'any1', 'any2', 'anystep', 'first',
+                    'floats', 'choices', 'nothing', 'everyother'])
+  return {'where': w, 'wseed': rng.randrange(1000)} if w and w.startswith('any') else {'where': w}
 
 
 def gen_leaf(rng, env, op, fit_ok=True):
@@ -1169,21 +1210,21 @@ def gen_leaf(rng, env, op, fit_ok=True):
     node.update(where=rng.choice([None, None, 'any', 'root', 'unsorted', 'none']),
                 seed=seed)
   elif op == 'recombinators.Uniform':
-    node.update(where=gen_rec_where(rng, op), seed=seed)
+    node.update(gen_rec_where(rng, op), seed=seed)
   elif op == 'recombinators.Sample':
-    node.update(where=gen_rec_where(rng, op), seed=seed,
+    node.update(gen_rec_where(rng, op), seed=seed,
                 weights=rng.choice(['ones', 'ramp'] + (['fit'] if fit_ok else [])))
   elif op == 'recombinators.Average':
-    node.update(where=gen_rec_where(rng, op))
+    node.update(gen_rec_where(rng, op))
   elif op == 'recombinators.WeightedAverage':
-    node.update(where=gen_rec_where(rng, op),
+    node.update(gen_rec_where(rng, op),
                 weights=rng.choice(['ones', 'ramp'] + (['fit'] if fit_ok else [])))
   elif op == 'recombinators.KPoint':
     node.update(kk=rng.choice([1, 1, 2, 2, 3, 5, 'kstep']), seed=seed)
   elif op == 'recombinators.Segmented':
     node.update(cuts=rng.choice(sorted(CUTS)))
   elif op in PERMUTATION:
-    node.update(where=gen_rec_where(rng, op), seed=seed)
+    node.update(gen_rec_where(rng, op), seed=seed)
   elif op == 'selectors.Random':
     node.update(n=gen_n(rng, npop), replacement=rng.random() < 0.4, seed=seed)
   elif op == 'selectors.Sample':
@@ -1317,6 +1358,21 @@ def gen_gen(rng, env, depth, fit_ok):
                    lambda: gen_gen(rng, env, d, fit_ok))
 
 
+def distant_pair(rng, env):
+  """Indices of two parents that differ at as many positions as possible."""
+  pos = [env.positions(m) for m in env.members]
+  best, pairs = -1, []
+  for i in range(len(pos)):
+    for j in range(len(pos)):
+      if i != j:
+        d = sum(a != b for a, b in zip(pos[i], pos[j]))
+        if d > best:
+          best, pairs = d, []
+        if d == best:
+          pairs.append([i, j])
+  return rng.choice(pairs)
+
+
 def gen_application(rng, env, which):
   """(expression, indices of the parents it is applied to)."""
   npop = len(env.pop)
@@ -1325,7 +1381,7 @@ def gen_application(rng, env, which):
     op = which
     node = gen_leaf(rng, env, op, True)
     if op in TWO_PARENTS:
-      idxs = rng.sample(everyone, 2)
+      idxs = rng.sample(everyone, 2) if rng.random() < 0.5 else distant_pair(rng, env)
     elif op in MUTATORS:
       idxs = rng.sample(everyone, rng.randint(1, min(3, npop)))
     elif op in POINTWISE:
@@ -1450,6 +1506,15 @@ def run_case(ctx, i):
     if len(samples) < 3:
       samples.append({'expression': show(expr), 'parents': idxs, 'step': step,
                       **summary})
+  # crossover battery: K-point crossovers that can actually place K cuts
+  if env.npos >= 3:
+    for _ in range(int(ctx.params['kpoint_extra'])):
+      expr = {'k': 'leaf', 'op': 'recombinators.KPoint',
+              'kk': rng.randint(1, min(3, env.npos - 2)), 'seed': rng.randrange(1000)}
+      idxs, step = distant_pair(rng, env), rng.randrange(8)
+      apply_expression(ctx, env, rng, expr, idxs, step,
+                       dict(case, expression=show(expr), parents=idxs, step=step))
+      ops_seen.append('recombinators.KPoint')
   if rng.random() < float(ctx.params['algos']):
     run_algorithm(ctx, env, rng, case)
   rich = any(e['t'] == 'choice' and (e['k'] > 1 or any(cd['elems'] for cd in e['cands']))
